@@ -795,6 +795,8 @@ func (env *SpecEnv) call(c *ast.CallExpr) Val {
 		case "be64":
 			s, i := env.expr(c.Args[0]), env.expr(c.Args[1])
 			return intVal(types.Typ[types.Int], beTerm(fc, env.st, s, i.S, 8))
+		case "ctxerr": // the error a context reports once it is done (Canceled or DeadlineExceeded for library contexts)
+			return ctxErrVal(fc, env.expr(c.Args[0]), types.Universe.Lookup("error").Type())
 		case "dl": // deadline (Unix nanoseconds) of a context value
 			d, _ := ctxDl(fc, env.expr(c.Args[0]))
 			return intVal(untypedInt, d)
